@@ -7,6 +7,7 @@ source (`Biogo.Generated.Alphabets`), and the laws are decided by the kernel ove
 import Biogo.Model.Alphabet
 import Biogo.Generated.Alphabets
 import Biogo.Drive.C17
+import Biogo.Proofs.Alphabet
 
 namespace Biogo.Properties.C17
 open Biogo.Alphabet
@@ -82,5 +83,262 @@ example : builtinLawsAt Biogo.Generated.alphaDNA 97 = true ∧
     (match Biogo.Generated.alphaDNA.build with
      | .ok (a, some p) => a.indexOf 97 == 0 && (p.complement 97).1 == 116 && a.indexOf 116 == 3
      | _ => false) = true := by decide +kernel
+
+/-! ## Any definition
+
+The theorems below are about the constructors themselves (`newAlphabet`, `newPairing`,
+`newComplementor` of `Biogo.Model.Alphabet` — the functions the driver runs on the `na`, `np`,
+`nc` cases and on the built-ins), for every definition, of any length. -/
+
+section general
+variable {ls : List UInt8} {g a : UInt8} {cased : Bool} {A : Alpha}
+
+/-- "a letter is valid exactly when it (in either case, for case-insensitive alphabets)
+    appears in the definition" — `inDefinition` is the predicate the driver evaluates on the
+    implementation's output. -/
+theorem valid_iff_mem (h : newAlphabet ls g a cased = .ok A) (l : UInt8) :
+    A.isValid l = inDefinition cased ls l :=
+  newAlphabet_valid h l
+
+/-- case-sensitive: valid ⇔ a letter of the definition -/
+theorem valid_iff_mem_cased (h : newAlphabet ls g a true = .ok A) (l : UInt8) :
+    A.isValid l = true ↔ l ∈ ls := by
+  rw [valid_iff_mem h]; simp [inDefinition]
+
+/-- case-insensitive: valid ⇔ equal to a letter of the definition up to ASCII case -/
+theorem valid_iff_mem_uncased (h : newAlphabet ls g a false = .ok A) (l : UInt8) :
+    A.isValid l = true ↔ ∃ x ∈ ls, toLower x = toLower l := by
+  rw [valid_iff_mem h]; simp [inDefinition]
+
+/-- the hypothesis "distinct letters": distinct after lower-casing when the alphabet is not
+    case sensitive -/
+def Distinct (cased : Bool) (ls : List UInt8) : Prop :=
+  if cased then ls.Nodup else (ls.map toLower).Nodup
+
+/-- "IndexOf and Letter are mutually inverse on 0..Len-1" (1): `IndexOf (Letter i) = i`. -/
+theorem indexOf_letter (h : newAlphabet ls g a cased = .ok A) (hd : Distinct cased ls)
+    (i : Nat) (hi : i < A.length) :
+    ∃ l, A.letter i = some l ∧ A.isValid l = true ∧ A.indexOf l = (i : Int) := by
+  have hlen := (newAlphabet_ok h).1
+  apply indexOf_letter_nodup h _ i (by omega)
+  cases cased <;> simpa [Distinct, indexList] using hd
+
+/-- "… mutually inverse" (2): for a valid `l`, `IndexOf l` lies in `0..Len-1` and
+    `Letter (IndexOf l)` is `l` up to ASCII case — exactly `l` for a case-sensitive alphabet.
+    (No distinctness needed.) -/
+theorem letter_indexOf (h : newAlphabet ls g a cased = .ok A) (l : UInt8) (hv : A.isValid l = true) :
+    0 ≤ A.indexOf l ∧ A.indexOf l < A.length ∧
+    ∃ x, A.letter (A.indexOf l).toNat = some x ∧ toLower x = toLower l ∧ (cased = true → x = l) := by
+  obtain ⟨h0, h1, h2⟩ := letter_indexOf_fold h l hv
+  have hlen := (newAlphabet_ok h).1
+  refine ⟨h0, by omega, foldOf cased l, h2, ?_, ?_⟩
+  · cases cased <;> simp [foldOf, toLower_idem]
+  · intro hc; simp [foldOf, hc]
+
+/-- "IndexOf is negative for invalid letters" — and only for them. -/
+theorem indexOf_neg_iff_invalid (h : newAlphabet ls g a cased = .ok A) (l : UInt8) :
+    A.indexOf l < 0 ↔ A.isValid l = false :=
+  indexOf_neg_iff h l
+
+end general
+
+/-- "AllValid reports the first invalid position", for any alphabet value and any slice:
+    the answer is `(true, -1)` exactly when every letter is valid; an answer `(false, i)` names
+    a position `i` inside the slice whose letter is invalid and before which every letter is
+    valid; and there is no third kind of answer. -/
+theorem allValid_first_invalid (a : Alpha) (ls : List Letter) :
+    (a.allValid ls = (true, -1) ↔ ∀ l ∈ ls, a.isValid l = true) ∧
+    (∀ i : Int, a.allValid ls = (false, i) →
+      ∃ n : Nat, i = n ∧ n < ls.length ∧ ls[n]?.map a.isValid = some false ∧
+        ∀ m < n, ls[m]?.map a.isValid = some true) ∧
+    (a.allValid ls = (true, -1) ∨ ∃ n : Nat, a.allValid ls = (false, (n : Int))) := by
+  have hspec := allValidFrom_spec a ls 0
+  simp only [Alpha.allValid]
+  have hfun : a.isValid = a.valid := rfl
+  rw [hfun]
+  rcases hspec with ⟨h1, h2⟩ | ⟨n, h1, h2, h3⟩
+  · refine ⟨⟨fun _ => h2, fun _ => h1⟩, ?_, Or.inl h1⟩
+    intro i hi; rw [h1] at hi; cases hi
+  · have h1 : a.allValidFrom ls 0 = (false, (n : Int)) := by simpa using h1
+    have hlt : n < ls.length := by
+      cases hn : ls[n]? with
+      | none => simp [hn] at h2
+      | some x => exact (List.getElem?_eq_some_iff.mp hn).1
+    refine ⟨⟨?_, ?_⟩, ?_, Or.inr ⟨n, h1⟩⟩
+    · intro h; rw [h1] at h; cases h
+    · intro hall
+      obtain ⟨x, hx⟩ : ∃ x, ls[n]? = some x := ⟨ls[n], List.getElem?_eq_getElem hlt⟩
+      have hmem : x ∈ ls := List.mem_of_getElem? hx
+      rw [hx] at h2; simp only [Option.map_some, Option.some.injEq] at h2
+      rw [hall x hmem] at h2; cases h2
+    · intro i hi
+      rw [h1] at hi
+      injection hi with _ hi
+      exact ⟨n, hi.symm, hlt, h2, h3⟩
+
+section pairing
+variable {s c : List UInt8} {p : Pairing}
+
+/-- "the complement is … [an] involution": for any accepted pairing,
+    `Complement (Complement l) = l` for all 256 letter values. -/
+theorem complement_involutive (h : newPairing s c = .ok p) (l : UInt8) :
+    (p.complement (p.complement l).1).1 = l := by
+  obtain ⟨hlen, _, _, hp, _, hchk, _⟩ := newPairing_ok h
+  simp only [Pairing.complement, hp]
+  exact pairTable_involutive_of_check s c (checkBijection_mem _ s c hlen hchk) l
+
+/-- "its method and table forms agree": the table holds the method's letter, with the high
+    bit set exactly when the method reports `ok = false`. -/
+theorem table_agrees_method (h : newPairing s c = .ok p) (l : UInt8) :
+    p.complements l = if (p.complement l).2 then (p.complement l).1 else (p.complement l).1 ||| 128 := by
+  obtain ⟨_, _, _, _, _, _, hcomp⟩ := newPairing_ok h
+  simp only [Pairing.complement]
+  exact congrFun hcomp l
+
+/-- the complementing alphabet keeps the pairing it was given, so the two laws above hold for
+    the value `NewComplementor` returns -/
+theorem newComplementor_pairing {n : Nucleic} {g a : UInt8} {cased : Bool} {ls : List UInt8}
+    (h : newComplementor ls p g a cased = .ok n) :
+    n.pairing = p ∧ newAlphabet ls g a cased = .ok n.alpha := by
+  unfold newComplementor at h
+  split at h
+  · cases h
+  · rename_i A hA
+    split at h
+    · injection h with h; subst h; exact ⟨rfl, hA⟩
+    · cases h
+
+/-- The acceptance test of `NewComplementor` never fails: a letter without a pairing keeps
+    itself as complement (so `i&0x7f == v&0x7f`), a letter with one has `ok = true`, and either
+    makes the first conjunct of the test false.  `NewComplementor` therefore accepts every
+    pairing `NewPairing` accepts, whatever the alphabet — which is why "valid letters go to valid
+    letters" and "case preserving" are *not* theorems about arbitrary complementors (witnesses
+    below); they are proved for the built-ins (`builtin_laws`). -/
+theorem newComplementor_accepts_every_pairing {ls : List UInt8} {g a : UInt8} {cased : Bool} {A : Alpha}
+    (hp : newPairing s c = .ok p) (hA : newAlphabet ls g a cased = .ok A) :
+    newComplementor ls p g a cased = .ok { alpha := A, pairing := p } := by
+  obtain ⟨_, _, _, hpair, hok, _, _⟩ := newPairing_ok hp
+  have hall : allBytes.all (pairAcceptable A p) = true := by
+    rw [List.all_eq_true]
+    intro i _
+    simp only [pairAcceptable]
+    cases hoki : p.ok i with
+    | true => simp
+    | false =>
+      have : p.pair i = i := by
+        rw [hok] at hoki
+        have := (fillPairs_ok_false s c initPairs i hoki).1
+        rw [hpair]; simpa [pairTable, initPairs] using this
+      simp [this]
+  simp [newComplementor, hA, hall]
+
+/-- "constructors reject non-ASCII definitions" -/
+theorem rejects_nonASCII (ls : List UInt8) (g a : UInt8) (cased : Bool) (p : Pairing)
+    (h : ∃ b ∈ ls, b ≥ 128) :
+    newAlphabet ls g a cased = .error .nonASCII ∧
+    newComplementor ls p g a cased = .error .nonASCII := by
+  have hany : ls.any (fun b => b ≥ 128) = true := by
+    obtain ⟨b, hb, hge⟩ := h
+    exact List.any_eq_true.mpr ⟨b, hb, by simpa using hge⟩
+  have h1 : newAlphabet ls g a cased = .error .nonASCII := by simp [newAlphabet, hany]
+  exact ⟨h1, by simp [newComplementor, h1]⟩
+
+/-- … and non-ASCII pairing definitions -/
+theorem rejects_nonASCII_pairing (hlen : s.length = c.length) (h : ∃ b ∈ s ++ c, b ≥ 128) :
+    newPairing s c = .error .pairNonASCII := by
+  obtain ⟨b, hb, hge⟩ := h
+  have : (s.any (· ≥ 128) || c.any (· ≥ 128)) = true := by
+    rcases List.mem_append.mp hb with hb | hb
+    · exact Bool.or_eq_true _ _ |>.mpr (Or.inl (List.any_eq_true.mpr ⟨b, hb, by simpa using hge⟩))
+    · exact Bool.or_eq_true _ _ |>.mpr (Or.inr (List.any_eq_true.mpr ⟨b, hb, by simpa using hge⟩))
+  simp [newPairing, hlen, this]
+
+/-- "constructors reject … mismatched … pairings" -/
+theorem rejects_length_mismatch (h : s.length ≠ c.length) :
+    newPairing s c = .error .lengthMismatch := by
+  simp [newPairing, h]
+
+/-- A pairing of equal-length ASCII strings is accepted exactly when the table it defines
+    (`pair[s[i]] = c[i]`, last write wins, identity elsewhere) is an involution of the 256
+    letter values … -/
+theorem accepts_iff_involution (hlen : s.length = c.length) (hascii : ∀ b ∈ s ++ c, b < 128) :
+    (∃ p, newPairing s c = .ok p) ↔ ∀ x, pairTable s c (pairTable s c x) = x := by
+  constructor
+  · rintro ⟨p, h⟩ x
+    obtain ⟨_, _, _, _, _, hchk, _⟩ := newPairing_ok h
+    exact pairTable_involutive_of_check s c (checkBijection_mem _ s c hlen hchk) x
+  · intro hinv
+    have hchk := checkBijection_of_involutive (pairTable s c) s c hinv
+    have h1 : (s.any (· ≥ 128) || c.any (· ≥ 128)) = false := by
+      rw [Bool.or_eq_false_iff]
+      constructor <;>
+      · rw [List.any_eq_false]
+        intro x hx
+        have := hascii x (List.mem_append.mpr (by first | exact Or.inl hx | exact Or.inr hx))
+        simp only [ge_iff_le, decide_eq_true_eq, UInt8.not_le]; exact this
+    unfold pairTable at hchk
+    simp only [newPairing, hlen, ne_eq, not_true_eq_false, if_false, h1, Bool.false_eq_true, hchk, if_true]
+    exact ⟨_, rfl⟩
+
+/-- "constructors reject … non-bijective pairings": if the table is not injective (two letters
+    share a complement) the pairing is rejected with the "not a bijection" error.  (So is every
+    bijection that is not an involution, by `accepts_iff_involution`.) -/
+theorem rejects_non_bijection (hlen : s.length = c.length) (hascii : ∀ b ∈ s ++ c, b < 128)
+    (h : ¬ Function.Injective (pairTable s c)) :
+    newPairing s c = .error .notBijection := by
+  have hno : ¬ ∃ p, newPairing s c = .ok p := by
+    intro hp
+    have hinv := (accepts_iff_involution hlen hascii).mp hp
+    apply h
+    intro x y hxy
+    rw [← hinv x, ← hinv y, hxy]
+  -- the only remaining outcome
+  have h1 : (s.any (· ≥ 128) || c.any (· ≥ 128)) = false := by
+    rw [Bool.or_eq_false_iff]
+    constructor <;>
+    · rw [List.any_eq_false]
+      intro x hx
+      have := hascii x (List.mem_append.mpr (by first | exact Or.inl hx | exact Or.inr hx))
+      simp only [ge_iff_le, decide_eq_true_eq, UInt8.not_le]; exact this
+  cases hc : checkBijection (fillPairs s c initPairs).pair s c with
+  | true =>
+    exfalso; apply hno
+    simp only [newPairing, hlen, ne_eq, not_true_eq_false, if_false, h1, Bool.false_eq_true, hc, if_true]
+    exact ⟨_, rfl⟩
+  | false =>
+    simp only [newPairing, hlen, ne_eq, not_true_eq_false, if_false, h1, Bool.false_eq_true, hc]
+
+/-- The second test of the check loop (`c[i] == pair[pair[c[i]]]`) never decides: if every
+    letter of `s` passes the first test, the pairing is accepted. -/
+theorem second_bijection_test_redundant (hlen : s.length = c.length) (hascii : ∀ b ∈ s ++ c, b < 128)
+    (h : ∀ l ∈ s, pairTable s c (pairTable s c l) = l) : ∃ p, newPairing s c = .ok p :=
+  (accepts_iff_involution hlen hascii).mpr (pairTable_involutive_of_check s c h)
+
+end pairing
+
+-- non-vacuity: the hypotheses are satisfied by real definitions, cased and not, and by a
+-- real pairing; a non-injective pairing and a 3-cycle are rejected
+example : (match newAlphabet [97, 99, 103, 116] 45 110 false with
+    | .ok A => A.isValid 65 && A.indexOf 84 == 3 && A.letter 3 == some 116 | .error _ => false) = true ∧
+    Distinct false [97, 99, 103, 116] ∧ Distinct true [65, 97] ∧ ¬ Distinct false [65, 97] := by
+  refine ⟨by decide +kernel, ?_, ?_, ?_⟩ <;> simp [Distinct, toLower] <;> decide
+example : (match newPairing [97, 116] [116, 97] with | .ok p => p.pair 97 == 116 | .error _ => false) = true ∧
+    (match newPairing [97, 98] [99, 99] with | .error e => e == .notBijection | .ok _ => false) = true ∧
+    (match newPairing [97, 98, 99] [98, 99, 97] with | .error e => e == .notBijection | .ok _ => false) = true := by
+  decide +kernel
+
+/-- Not general (refutation witnesses on the model, replayed on the implementation by the `nc`
+    corpus lines): the alphabet "ab" with the accepted pairing a↔c is accepted, `a` is valid and
+    its complement `c` is not; the accepted pairing a↔G is not case preserving. -/
+theorem complement_valid_not_general :
+    (match newPairing [97, 99] [99, 97] with
+     | .ok p =>
+       (match newComplementor [97, 98] p 45 110 true with
+        | .ok n => n.alpha.isValid 97 && !n.alpha.isValid (n.pairing.complement 97).1
+        | .error _ => false)
+     | .error _ => false) = true ∧
+    (match newPairing [97, 71] [71, 97] with
+     | .ok p => isLowerB 97 && !isLowerB (p.complement 97).1
+     | .error _ => false) = true := by decide +kernel
 
 end Biogo.Properties.C17
